@@ -432,7 +432,24 @@ impl LockFreeMemoryPool {
             }
 
             // Perform allocation
-            results.push(self.allocate(size)?);
+            match self.allocate(size) {
+                Ok(ptr) => results.push(ptr),
+                Err(e) => {
+                    // The caller never sees the blocks this call already took:
+                    // give them back instead of leaking them. A push can only be
+                    // refused because other threads won the race max_cas_retries
+                    // times in a row, so it is simply tried again.
+                    for (ptr, &taken_size) in results.iter().zip(sizes.iter()) {
+                        for _ in 0..1024 {
+                            if self.deallocate(*ptr, taken_size).is_ok() {
+                                break;
+                            }
+                            std::hint::spin_loop();
+                        }
+                    }
+                    return Err(e);
+                }
+            }
         }
 
         Ok(results)
